@@ -560,10 +560,22 @@ def tlaps(module, timeout=900):
     os.makedirs(d)
     try:
         shutil.copy(os.path.join(SPEC, module + '.tla'), d)
-        p = sh(['tlapm', '--stretch', '6', '--toolbox', '0', '0', module + '.tla'], timeout=timeout, cwd=d)
-        m = re.search(r'All (\d+) obligations? proved', p.stdout)
+        # own process group: tlapm's back-end provers sometimes outlive it
+        import signal
+        pr = subprocess.Popen(['tlapm', '--stretch', '6', '--toolbox', '0', '0', module + '.tla'], stdout=subprocess.PIPE, stderr=subprocess.STDOUT,
+                              cwd=d, text=True, errors='replace', start_new_session=True)
+        try:
+            out, _ = pr.communicate(timeout=timeout)
+        except subprocess.TimeoutExpired:
+            out = ''
+        finally:
+            try:
+                os.killpg(pr.pid, signal.SIGKILL)
+            except OSError:
+                pass
+        m = re.search(r'All (\d+) obligations? proved', out or '')
         if not m:
-            raise HarnessError('tlapm did not prove %s:\n%s' % (module, p.stdout[-2000:]))
+            raise HarnessError('tlapm did not prove %s:\n%s' % (module, (out or '')[-2000:]))
         n = int(m.group(1))
         return n, n
     finally:
